@@ -46,6 +46,7 @@ def model_check(ctx, module, constants, invariants, label, spec=None, workers=No
         raise tlc.MachineryError("TLC timed out on model %s (%s)" % (module, label))
     out = p.stdout
     shutil.rmtree(os.path.join(base, "meta"), ignore_errors=True)
+    shutil.rmtree(os.path.join(base, "jtmp"), ignore_errors=True)
     with open(os.path.join(base, "tlc.log"), "w") as f:
         f.write(out)
     gen, dist = tlc.parse_stats(out)
